@@ -5,6 +5,7 @@
 package c29_lifecycle
 
 import (
+	"context"
 	"fmt"
 	"os"
 	"path/filepath"
@@ -62,12 +63,28 @@ func run(c *Case, base string) (violation string, nontrivial bool, classes []str
 	os.MkdirAll(aRoot, 0o755)
 	os.MkdirAll(bRoot, 0o755)
 	j := &sess.Journal{}
-	var slow atomic.Bool
-	sess.Install(j, &sess.Hooks{Scan: func(string, bool, *core.Entry, bool) (bool, *core.Snapshot, error, bool) {
+	var slow, hold atomic.Bool
+	held := make(chan struct{}, 16)
+	sess.Install(j, &sess.Hooks{Scan: func(session string, alpha bool, ancestor *core.Entry, full bool) (bool, *core.Snapshot, error, bool) {
 		if slow.Load() {
 			time.Sleep(40 * time.Millisecond)
 		}
+		// What history the cycle starts from is recorded in the journal.
+		if ancestor == nil {
+			j.Mark(session, "scan-without-history")
+		} else {
+			j.Mark(session, "scan-with-history")
+		}
 		return false, nil, nil, false
+	}, OnTransition: func(ctx context.Context, session string, alpha bool) {
+		// Hold beta's transition until the controller's context is cancelled.
+		if !alpha && hold.CompareAndSwap(true, false) {
+			held <- struct{}{}
+			select {
+			case <-ctx.Done():
+			case <-time.After(10 * time.Second):
+			}
+		}
 	}})
 	defer sess.Install(nil, nil)
 	env, err := sess.NewEnv(data)
@@ -271,6 +288,70 @@ func run(c *Case, base string) (violation string, nontrivial bool, classes []str
 					pendingEdits = nil
 				}
 			}
+		case "reset-during-transition":
+			// A reset that arrives while a cycle is in the middle of its
+			// transition phase: history must still be cleared (the first scan
+			// after the reset starts without history) and content that only
+			// one root holds at that moment must survive the next cycle.
+			if !m.exists || m.paused {
+				break
+			}
+			if env.Flush(id, 5*time.Second) != nil {
+				break
+			}
+			pendingEdits = nil
+			both := ""
+			for name := range readFiles(aRoot) {
+				if _, err := os.Lstat(filepath.Join(bRoot, name)); err == nil {
+					both = name
+				}
+			}
+			if both == "" {
+				break
+			}
+			counter++
+			fresh := fmt.Sprintf("f%d-alpha", counter)
+			os.WriteFile(filepath.Join(aRoot, fresh), []byte(fmt.Sprintf("content %d", counter)), 0o644)
+			for len(held) > 0 {
+				<-held
+			}
+			hold.Store(true)
+			env.FlushNoWait(id)
+			select {
+			case <-held:
+			case <-time.After(5 * time.Second):
+				hold.Store(false)
+			}
+			os.Remove(filepath.Join(aRoot, both))
+			beforeA, beforeB := readFiles(aRoot), readFiles(bRoot)
+			err := env.Reset(id)
+			hold.Store(false)
+			end := j.Mark(id, "reset.end")
+			if err != nil {
+				return fmt.Sprintf("step %d: reset (during a transition) fails: %v", ci, err), false, classes
+			}
+			classes = append(classes, "reset-during-transition")
+			ferr := env.Flush(id, 5*time.Second)
+			for _, e := range j.Events() {
+				if e.Session == id && e.Phase == "mark" && e.Seq > end && strings.HasPrefix(e.Call, "scan-with") {
+					if e.Call == "scan-with-history" {
+						return fmt.Sprintf("step %d: the first scan after a reset (issued while a transition was running) was given the old history", ci), true, classes
+					}
+					break
+				}
+			}
+			if ferr == nil {
+				for name, content := range beforeA {
+					if got, _ := os.ReadFile(filepath.Join(aRoot, name)); string(got) != content {
+						return fmt.Sprintf("step %d: %q on alpha was lost or changed by the cycle after a reset issued during a transition", ci, name), true, classes
+					}
+				}
+				for name, content := range beforeB {
+					if got, _ := os.ReadFile(filepath.Join(bRoot, name)); string(got) != content {
+						return fmt.Sprintf("step %d: %q on beta was lost or changed by the cycle after a reset issued during a transition (it had been deleted on alpha after that cycle's scan)", ci, name), true, classes
+					}
+				}
+			}
 		case "terminate":
 			err := env.Terminate(id)
 			end := j.Mark(id, "terminate.end")
@@ -359,12 +440,12 @@ func TestLifecycleHistories(t *testing.T) {
 	if ev.ReplayPath() != "" {
 		t.Skip()
 	}
-	rec := ev.New(t, prop, "lifecycle-histories", "rapid: command sequences (5-25 of: edit alpha/beta, pause, resume, waiting flush, non-waiting flush, reset, terminate, manager restart on the same data directory, a waiting flush racing with a pause, a waiting flush issued behind a cycle that is still scanning) on a real Manager session between two real roots, endpoint calls journaled with a global sequence; non-trivial: the history contains pause -> restart -> resume or a flush racing with a pause")
+	rec := ev.New(t, prop, "lifecycle-histories", "rapid: command sequences (5-25 of: edit alpha/beta, pause, resume, waiting flush, non-waiting flush, reset, terminate, manager restart on the same data directory, a waiting flush racing with a pause, a waiting flush issued behind a cycle that is still scanning, a reset issued while beta's transition is held in flight and a file both roots hold is deleted on alpha) on a real Manager session between two real roots, endpoint calls journaled with a global sequence; non-trivial: the history contains pause -> restart -> resume or a flush racing with a pause")
 	base := t.TempDir()
 	n := 0
 	ev.Check(t, rec, 150, 5000, func(rt *rapid.T) {
 		c := &Case{CreatePaused: rapid.IntRange(0, 4).Draw(rt, "create-paused") == 0}
-		ops := []string{"edit-alpha", "edit-beta", "edit-alpha", "pause", "resume", "resume", "flush", "flush", "flush-nowait", "flush-behind-running-cycle", "reset", "terminate", "restart", "restart", "flush||pause", "settle"}
+		ops := []string{"edit-alpha", "edit-beta", "edit-alpha", "pause", "resume", "resume", "flush", "flush", "flush-nowait", "flush-behind-running-cycle", "reset", "reset-during-transition", "terminate", "restart", "restart", "flush||pause", "settle"}
 		for k := rapid.IntRange(5, 25).Draw(rt, "len"); k > 0; k-- {
 			op := rapid.SampledFrom(ops).Draw(rt, "op")
 			if op == "terminate" && rapid.IntRange(0, 2).Draw(rt, "really-terminate") > 0 {
